@@ -230,6 +230,7 @@ def run(ctx):
     lookup_results_are_nullable(ctx)
     parallel_subscripts_are_bounded(ctx)
     shared_manifests_are_not_freed(ctx)
+    using_walks_carry_a_visited_set(ctx)
     instance_substitution_registers_first(ctx)
     containment_recursion(ctx)
     construction_stacks(ctx)
